@@ -121,7 +121,7 @@ Init == (InitChoice \/ InitPlain \/ InitConfirm)
 \* the same question object is asked again where the first dialogue stopped reading
 Again == /\ pc = "done" /\ round < Rounds /\ round' = round + 1
          /\ \E rc \in Reconfs :
-              /\ (rc = 2 => q.kind = "choice") /\ (rc \in {3, 4} => q.built = q.choices)
+              /\ (rc = 2 => q.kind = "choice") /\ (rc \in {2, 3, 4} => q.built = q.choices)
               /\ (rc = 5) = (route[1].op = "ctor_stream")
               /\ first' = [out |-> out, r |-> obs.reads, n |-> pos - start, e |-> obs.errs, w |-> obs.prompts, rc |-> rc]
               /\ IF rc = 2 THEN ReAskAs([q EXCEPT !.multi = ~q.multi], script, pos)
